@@ -695,3 +695,4 @@ EXPLANATION += (' Round 6: ' + "PITFALL/stale-sibling (two names unpacked from e
 EXPLANATION += (' Round 7: ' + "PITFALL/wrapper-default (a forwarded parameter keeps the callee's default); FIELDS/reader-keeps-every-event (no signature event is skipped on numerator / denominator).")
 EXPLANATION += (' Rounds 9-10: ' + 'FRESH/instrument-per-group located when the reuse branch changes nothing its condition reads; LIMIT/reader-max-tick (the module-level MAX_TICK override folds to at least the pinned 1e10).')
 EXPLANATION += (' Round 12: ' + 'PITFALL/stale-loop-variable over midi_io.')
+EXPLANATION += (' Round 14: ' + 'LAYOUT/label-whatever-the-others.')
